@@ -622,6 +622,8 @@ Rock::Rebuild::finalizeOrThrow(const sfileno fileNo, LoadingEntry &le)
 
     if (!anchor.basics.swap_file_sz)
         anchor.basics.swap_file_sz = le.size;
+    else
+        Must(anchor.basics.swap_file_sz == le.size); // no truncated entries: a known entry size is authoritative
     EBIT_SET(anchor.basics.flags, ENTRY_VALIDATED);
     le.state(LoadingEntry::leLoaded);
     sd->map->closeForWriting(fileNo);
